@@ -211,7 +211,12 @@ def xmatch(
     return res[0]
 
 
-_vect_get_type_id = np.vectorize(_get_type_id, otypes=[int])
+def _vect_get_type_id(values):
+    # (A plain function: a used `np.vectorize` object cannot be pickled.)
+    values = np.asarray(values, object)
+    return np.fromiter(
+        map(_get_type_id, values.ravel().tolist()), int, values.size
+    ).reshape(values.shape)
 
 
 def args_parser_match_array(val, arr, match_type=1):
